@@ -89,6 +89,13 @@ type vfC15ClientSpec struct {
 	// eligible(c, m) refers to the second, live connection.
 	Takeover string
 	Resub    bool // the last SUBSCRIBE packet replaces the QoS of a held filter
+	// Resumed: pre-history of a persistent session that comes back from the session store. The
+	// client connects with cleanSession=false and subscribes; once its record is in the store the
+	// connection ends (DISCONNECT or a dropped socket) and is torn down completely; then the client
+	// connects again with cleanSession=false and does NOT subscribe again: its subscriptions come
+	// back with the session the broker rebuilds from the stored record. (With Takeover set as well,
+	// the takeover then happens on that resumed session.)
+	Resumed string // "" | "disconnect" | "halfclose"
 	// Deleted: before the burst the session of this client is deleted administratively ("admin":
 	// HTTP session-delete endpoint, "store-event": the record disappears from the store as after
 	// another member's delete) while its connection is idle. The broker unregisters and closes the
@@ -148,6 +155,9 @@ func (k vfC15Case) String() string {
 		fmt.Fprintf(&sb, "]%s", map[bool]string{true: " leaves", false: ""}[c.Leaves])
 		if c.Takeover != "" {
 			fmt.Fprintf(&sb, " persistent-session-takeover(%s)", c.Takeover)
+		}
+		if c.Resumed != "" {
+			fmt.Fprintf(&sb, " session-resumed-from-store(after %s)", c.Resumed)
 		}
 		if c.Deleted != "" {
 			fmt.Fprintf(&sb, " session-deleted-while-idle(%s)", c.Deleted)
@@ -268,6 +278,11 @@ func vfC15GenCase(rt *rapid.T, withPolicies bool) vfC15Case {
 				c.Deleted = "store-event"
 			}
 		}
+		// unbiased: one client in four of the retransmission test, one in eight of the fan-out test
+		rb := rapid.SliceOfN(rapid.Bool(), 4, 4).Draw(rt, "resumedBits")
+		if rb[0] && rb[1] && (withPolicies || rb[2]) {
+			c.Resumed = map[bool]string{true: "disconnect", false: "halfclose"}[rb[3]]
+		}
 		c.Policy = vfC15Policy{Kind: "immediate"}
 		if withPolicies {
 			switch rapid.IntRange(0, 5).Draw(rt, "policy") {
@@ -370,6 +385,8 @@ type vfC15Run struct {
 	// stale[i]: client i's session was deleted while its connection was idle: the broker has
 	// unregistered the id, its filters are still in the trie (its read loop has not noticed yet)
 	stale []bool
+	// resumedInMemory counts resuming connects that found the session still in the session map
+	resumedInMemory int
 }
 
 // publish sends one message of the burst in the form its generator chose.
@@ -400,10 +417,10 @@ func vfC15Start(rt *rapid.T, k vfC15Case) *vfC15Run {
 		if err != nil {
 			vfC15Inconclusive(rt, "dial", err)
 		}
-		if cs.Takeover == "" {
+		if cs.Takeover == "" && cs.Resumed == "" {
 			c.SetPolicy(cs.Policy.fn())
 		}
-		code, err := c.Connect(cid, cs.Takeover == "")
+		code, err := c.Connect(cid, cs.Takeover == "" && cs.Resumed == "")
 		if err != nil || code != packets.Accepted {
 			vfC15Inconclusive(rt, "connect", fmt.Errorf("code=%d err=%v", code, err))
 		}
@@ -417,6 +434,52 @@ func vfC15Start(rt *rapid.T, k vfC15Case) *vfC15Run {
 			if err := c.Subscribe(fs, qs); err != nil {
 				vfC15Inconclusive(rt, "subscribe", err)
 			}
+		}
+		if cs.Resumed != "" {
+			// the record with the subscriptions must be in the store before the connection ends
+			if err := rig.StoreFence(); err != nil {
+				vfC15Inconclusive(rt, "store fence", err)
+			}
+			if cs.Resumed == "disconnect" {
+				err = c.Disconnect()
+			} else {
+				err = c.HalfClose()
+			}
+			if err != nil {
+				vfC15Inconclusive(rt, "end connection", err)
+			}
+			if !c.WaitEOF(vfMqWait) {
+				vfC15Inconclusive(rt, "end connection", fmt.Errorf("broker did not close %s", cid))
+			}
+			deadline := time.Now().Add(vfMqWait)
+			for rig.registered(cid) != nil {
+				if time.Now().After(deadline) {
+					vfC15Inconclusive(rt, "end connection", fmt.Errorf("%s still registered after its connection ended", cid))
+				}
+				time.Sleep(200 * time.Microsecond)
+			}
+			if err := rig.StoreFence(); err != nil {
+				vfC15Inconclusive(rt, "store fence", err)
+			}
+			if _, ok := rig.broker.sessMgr.sessionMap.Load(cid); ok {
+				// C16's business; the session would not come from the store then
+				r.resumedInMemory++
+			}
+			c2, err := rig.Dial(cid + "+")
+			if err != nil {
+				vfC15Inconclusive(rt, "dial", err)
+			}
+			if cs.Takeover == "" {
+				c2.SetPolicy(cs.Policy.fn())
+			}
+			code, err := c2.Connect(cid, false)
+			if err != nil || code != packets.Accepted {
+				vfC15Inconclusive(rt, "resuming connect", fmt.Errorf("code=%d err=%v", code, err))
+			}
+			if _, err := c2.Ping(); err != nil { // the read loop starts after the session's filters are routed again
+				vfC15Inconclusive(rt, "ping after resuming connect", err)
+			}
+			c = c2
 		}
 		if cs.Takeover != "" {
 			// warm-up delivery to the first connection (QoS0, a topic its first filter matches)
@@ -740,6 +803,12 @@ func vfC15CountClasses(vf *vfCollector, k vfC15Case) {
 		if k.Clients[i].Deleted != "" {
 			vf.Class("client-session-deleted-while-connection-idle:" + k.Clients[i].Deleted)
 		}
+		if k.Clients[i].Resumed != "" {
+			vf.Class("client-on-session-resumed-from-store:after-" + k.Clients[i].Resumed)
+			if k.Clients[i].Takeover != "" {
+				vf.Class("client-after-takeover-of-a-resumed-session")
+			}
+		}
 		own := map[int]bool{}
 		for _, q := range k.subs(i) {
 			own[int(q)] = true
@@ -771,6 +840,9 @@ func TestVerifC15Fanout(t *testing.T) {
 		}
 		if r.rig.SawDelete > 0 {
 			vf.Class("barrier-saw-deleteSession-goroutine")
+		}
+		if r.resumedInMemory > 0 {
+			vf.Class("resuming-connect-found-the-session-still-in-memory")
 		}
 		vf.Case(mixed || besideStale, "fanout|"+k.String(), func() interface{} {
 			return map[string]interface{}{"test": "fanout", "case": k.String()}
@@ -811,6 +883,16 @@ func TestVerifC15Resend(t *testing.T) {
 			}
 			withheld = true
 			vf.Class("policy:" + pol.Kind)
+			switch cs := k.Clients[i]; {
+			case cs.Resumed != "" && cs.Takeover != "":
+				vf.Class("retransmission-required:on-taken-over-resumed-session")
+			case cs.Resumed != "":
+				vf.Class("retransmission-required:on-session-resumed-from-store")
+			case cs.Takeover != "":
+				vf.Class("retransmission-required:on-taken-over-persistent-session")
+			default:
+				vf.Class("retransmission-required:on-session-created-by-this-connect")
+			}
 			w := ids
 			if len(w) > pol.D {
 				w = w[:pol.D]
@@ -916,6 +998,9 @@ func TestVerifC15Resend(t *testing.T) {
 		}
 		if besideStale {
 			vf.Class("nontrivial:eligible-subscriber-beside-an-unregistered-routed-id")
+		}
+		if r.resumedInMemory > 0 {
+			vf.Class("resuming-connect-found-the-session-still-in-memory")
 		}
 		vf.Case(withheld || mixed || besideStale, "resend|"+k.String(), func() interface{} {
 			return map[string]interface{}{"test": "resend", "case": k.String()}
